@@ -253,7 +253,14 @@ def TE(h):
         h.empty(b'user%d' % i, b'nothing stored, but a description of some length %d' % i)
 
 
-FILE_TEMPLATES = {'T1': T1, 'T2': T2, 'T3': T3, 'T4': T4, 'T5': T5, 'T6': T6, 'T10': T10, 'T2L': T2L, 'T3E': T3E, 'TE': TE}
+def TBIG(h):
+    """records larger than the 64 KiB copy chunk: a 150000-byte transaction, then a 70000-byte one, then small ones"""
+    h.commit([(oid(1), b'A' * 150000)], b'u', b'large')
+    h.commit([(oid(2), b'B' * 70000), (oid(1), b'a-small')], b'u', b'smaller, still above one chunk')
+    h.commit([(oid(2), b'b-small')], b'u', b'small')
+
+
+FILE_TEMPLATES = {'T1': T1, 'T2': T2, 'T3': T3, 'T4': T4, 'T5': T5, 'T6': T6, 'T10': T10, 'T2L': T2L, 'T3E': T3E, 'TE': TE, 'TBIG': TBIG}
 MAPPING_TEMPLATES = {'T1': T1, 'T2': T2, 'T3': T3}
 
 
